@@ -219,6 +219,10 @@ class Raised(Exception):
         return 'Raised(%r)' % (self.exc,)
 
 
+class GenList(list):
+    """Values of a generator expression (evaluated eagerly): a list that next() may consume."""
+
+
 class GenVal:
     """Result of calling a generator function: the list of yielded values."""
 
@@ -843,6 +847,12 @@ class Interp:
                         if r.exc.kind == 'StopIteration' and len(args) > 1:
                             return args[1]
                         raise
+            if isinstance(it, GenList):
+                if it:
+                    return it.pop(0)
+                if len(args) > 1:
+                    return args[1]
+                raise Raised(ExcVal('StopIteration'))
             if isinstance(it, list):
                 raise Raised(ExcVal('TypeError', ('list is not an iterator',)))
             return Unknown('next')
@@ -1619,7 +1629,8 @@ class Interp:
         return out
 
     def ex_GeneratorExp(self, e, frame):
-        return self.ex_ListComp(e, frame)
+        # evaluated eagerly; the result is list-like everywhere, and next() consumes it from the front
+        return GenList(self.ex_ListComp(e, frame))
 
     def ex_SetComp(self, e, frame):
         if _is_unicode_category_comp(e):
